@@ -43,6 +43,7 @@ const (
 	ASetQid
 	AExpire
 	ARunt // UDP: a datagram shorter than a DNS header (Tag = its length, 1..11)
+	ASleep // UDP: 1.15 s of real time pass (waiting callers re-send once)
 )
 
 type Action struct {
@@ -114,6 +115,8 @@ func (a Action) Coq() string {
 		return "AExpire"
 	case ARunt:
 		return hx.App("ARunt", hx.Ni(a.Tag))
+	case ASleep:
+		return "ASleep"
 	}
 	return "?"
 }
@@ -435,6 +438,8 @@ func (v *View) Applicable(a Action) bool {
 		return !v.Closed && !v.ReadErr && widFree(a.Wid, -1)
 	case AFeedErr, AExpire:
 		return !v.Closed && !v.ReadErr
+	case ASleep:
+		return !v.TCP && !v.Closed && !v.ReadErr
 	case ARunt:
 		return !v.TCP && !v.Closed && !v.ReadErr && a.Tag >= 1 && a.Tag <= 11
 	case AClose:
@@ -672,6 +677,8 @@ func Run(s Script, next func(v *View) *Action) (Script, []Obs, Final) {
 			frameAfterSend = true
 			idleSeen++
 			fc.waitIdle(idleSeen, waitReturn)
+		case ASleep:
+			time.Sleep(1150 * time.Millisecond)
 		case ARunt:
 			fc.feed(make([]byte, a.Tag))
 			idleSeen++
